@@ -1,9 +1,65 @@
-(* C06 — Rejected or malformed requests change nothing and never crash a handler
-   Statements only; every proof is `exact <lemma>` into Mint/*.v (model: Mint/Model.v, semantics: Mint/Sem.v). *)
+(* C06 - Rejected or malformed requests change nothing and never crash a handler
+   Statements only; every proof is `exact <lemma>` into coq/Mint/*.v.
+
+   Reading guide (definitions in coq/Mint/*.v):
+     world            = store (tables spent/pending/signatures/mint quotes/melt quotes/keysets) + Lightning environment
+                        (invoices, scripted answers, log of pay calls) + the process memory (keysets, active keyset)
+     op               = one request (OSwap, OMint, OMelt, OMeltQuote, OMintQuote, OMintState, OMeltState, OCheck, ORestore,
+                        ORotate, ORestart, OWatcher, OBalance, OInfo) or environment step (ESettle, EScriptPay/Look, ...)
+     op_prog          = the request as a program over storage/Lightning calls, following mint/mint.go call by call
+     run p f w        = run program p from world w; f: which call positions get an injected storage error (no_fault: none)
+     run_n n p f w    = the same, but the process dies after n calls
+     step cfg f w o   = one request run to completion; run_history / reach: a sequential fault-free history from the empty store
+     hrun cfg w h     = a history of items: HNormal o | HFault o f | HCrash o n | HConc ops schedule (interleaving at call granularity)
+     WInv w           = every table has unique keys (Y, B_, quote ids, keyset ids)
+     Good w           = WInv w and no Y is both spent and pending
+     wext w w'        = spent and signature tables of w' extend those of w (nothing removed or altered)
+     same_but_calls   = nothing changed but the call counter
+     settled w h      = the backend reports the own invoice with payment hash h as settled
+
+   refusal_changes_nothing: quiet = all tables equal, except that an UNPAID quote whose invoice is settled may be recorded PAID.
+   Excluded: refusals caused by a Lightning-backend error (fault domain, C07).  nopanic p = no Panic leaf is reachable in p.
+*)
 From Coq Require Import ZArith List Bool.
-From Verif Require Import Model Sem InvDb InvSwap InvMint InvMelt Corollaries Queries.
+From Verif Require Import Model Sem InvDb InvSwap InvMint InvMelt Corollaries Queries Footprint HRel Global GlobalQuote GlobalValue GlobalErr GlobalQuery GlobalMelt GlobalKeys Cuts.
 Import ListNotations.
 Open Scope Z_scope.
+
+Theorem C06_refusal_changes_nothing : forall (cfg : config) (w : world) (o : op) (e : err) (iss : list Z),
+       match o with
+       | OMintQuote _ _ _ _ _ | OMintState _ | OMint _ _ _ | OSwap _ _ _ | OMeltQuote _ _ _ _ _ _ _ |
+         OMeltState _ | OMelt _ _ | OCheck _ | ORestore _ => True
+       | _ => False
+       end ->
+       Good w ->
+       VInv w iss -> snd (step cfg no_fault w o) = RFail e -> e = ELn \/ quiet w (fst (step cfg no_fault w o)).
+Proof. exact @refusal_changes_nothing. Qed.
+Print Assumptions C06_refusal_changes_nothing.
+
+Theorem C06_request_never_panics : forall (cfg : config) (mem_ks : list ksrow) (active : Z) (o : op),
+       match o with
+       | ORotate _ | ORestart _ _ => False
+       | _ => True
+       end -> nopanic (op_prog cfg mem_ks active o).
+Proof. exact @request_never_panics. Qed.
+Print Assumptions C06_request_never_panics.
+
+Theorem C06_request_run_never_panics : forall (cfg : config) (mem_ks : list ksrow) (active : Z) (o : op),
+       match o with
+       | ORotate _ | ORestart _ _ => False
+       | _ => True
+       end ->
+       (forall (f : oracle) (w : world), snd (run (op_prog cfg mem_ks active o) f w) <> Panicked) /\
+       (forall (n : nat) (f : oracle) (w : world), snd (run_n n (op_prog cfg mem_ks active o) f w) <> Panicked).
+Proof. exact @request_run_never_panics. Qed.
+Print Assumptions C06_request_run_never_panics.
+
+Theorem C06_check_never_refused : forall (ys : list Z) (w : world) (iss : list Z),
+       Good w ->
+       VInv w iss ->
+       exists (w' : world) (l : list (Z * Z * Z)), run (proofs_state_check ys) no_fault w = (w', Done (Ok l)).
+Proof. exact @check_never_refused. Qed.
+Print Assumptions C06_check_never_refused.
 
 Theorem C06_swap_atomic : forall (mem_ks : list ksrow) (active : Z) (ins : list proof) (outs : list bmsg) (sg : bool) (w : world),
        WInv w ->
@@ -12,93 +68,4 @@ Theorem C06_swap_atomic : forall (mem_ks : list ksrow) (active : Z) (ins : list 
          (forall e : err, r = Err e -> same_but_calls w w').
 Proof. exact @swap_atomic. Qed.
 Print Assumptions C06_swap_atomic.
-
-Theorem C06_swap_spec : forall (mem_ks : list ksrow) (active : Z) (ins : list proof) (outs : list bmsg) (sg : bool) (w : world),
-       WInv w ->
-       exists (w' : world) (r : result (list srow)),
-         run (swap mem_ks active ins outs sg) no_fault w = (w', Done r) /\
-         match r with
-         | Ok sigs =>
-             swap_gate mem_ks ins outs <> None /\
-             ins <> [] /\
-             (forall p : proof,
-              In p ins ->
-              ~ In (p_secret p) (ys_of (d_spent (w_db w))) /\ ~ In (p_secret p) (ys_of (d_pending (w_db w)))) /\
-             NoDup (map p_secret ins) /\
-             check_proofs mem_ks ins = None /\
-             (forall o : bmsg, In o outs -> ~ In (b_B o) (map s_B (d_sigs (w_db w)))) /\
-             (existsb p_sigall ins = true -> sg = true) /\
-             check_outputs mem_ks active outs = None /\
-             sigs = sig_rows outs /\
-             d_spent (w_db w') = d_spent (w_db w) ++ map (to_row 0) ins /\
-             d_sigs (w_db w') = d_sigs (w_db w) ++ sig_rows outs /\ ExecKeepsRest w w'
-         | Err _ => same_but_calls w w'
-         end.
-Proof. exact @swap_spec. Qed.
-Print Assumptions C06_swap_spec.
-
-Theorem C06_mint_tokens_spec : forall (mem_ks : list ksrow) (active id : Z) (outs : list bmsg) (sig : Z) (w : world),
-       WInv w ->
-       exists (w' : world) (r : result (list srow)),
-         run (mint_tokens mem_ks active id outs sig) no_fault w = (w', Done r) /\
-         match r with
-         | Ok sigs =>
-             exists q : mquote,
-               find_mq id (d_mq (w_db w)) = Some q /\
-               ((mq_state q = 1 \/ mq_state q = 0 /\ settled w (mq_hash q) = true) /\
-                (exists oa : Z, amount_checked (map b_amount outs) 0 = Some oa /\ oa <= mq_amount q) /\
-                NoDup (map b_B outs) /\
-                (forall o : bmsg, In o outs -> ~ In (b_B o) (map s_B (d_sigs (w_db w)))) /\
-                (mq_pubkey q <> 0 -> sig = 1) /\
-                check_outputs mem_ks active outs = None /\
-                sigs = sig_rows outs /\
-                d_sigs (w_db w') = d_sigs (w_db w) ++ sig_rows outs /\
-                d_mq (w_db w') = upd_mq id 3 (d_mq (w_db w)) /\
-                d_spent (w_db w') = d_spent (w_db w) /\
-                d_pending (w_db w') = d_pending (w_db w) /\ d_lq (w_db w') = d_lq (w_db w) /\ w_ln w' = w_ln w \/
-                ~ 0 <= mq_state q <= 3 /\ sigs = [] /\ same_but_calls w w')
-         | Err _ =>
-             same_but_calls w w' \/
-             (exists q : mquote,
-                find_mq id (d_mq (w_db w)) = Some q /\
-                (mq_state q = 1 \/ mq_state q = 0 /\ settled w (mq_hash q) = true) /\
-                only_mq w w' (upd_mq id 1 (d_mq (w_db w))))
-         end.
-Proof. exact @mint_tokens_spec. Qed.
-Print Assumptions C06_mint_tokens_spec.
-
-Theorem C06_melt_tokens_spec : forall (cfg : config) (mem_ks : list ksrow) (id : Z) (ins : list proof) (w : world),
-       WInv w ->
-       exists (w' : world) (r : result lquote),
-         run (melt_tokens cfg mem_ks id ins) no_fault w = (w', Done r) /\
-         keeps_mem w w' /\
-         match r with
-         | Ok q' =>
-             exists q : lquote,
-               find_lq id (d_lq (w_db w)) = Some q /\
-               melt_validated mem_ks q ins w /\
-               match find (fun m : mquote => mq_hash m =? lq_hash q) (d_mq (w_db w)) with
-               | Some mq0 =>
-                   exists pre : Z,
-                     q' = with_state q 2 pre /\
-                     melt_effect id ins w w' 2 pre /\
-                     d_mq (w_db w') = upd_mq (mq_id mq0) 1 (d_mq (w_db w)) /\ w_ln w' = w_ln w
-               | None =>
-                   q' =
-                   with_state q (fst (melt_decision (next_pay w (lq_hash q)) (next_look w (lq_hash q))))
-                     (snd (melt_decision (next_pay w (lq_hash q)) (next_look w (lq_hash q)))) /\
-                   melt_effect id ins w w' (fst (melt_decision (next_pay w (lq_hash q)) (next_look w (lq_hash q))))
-                     (snd (melt_decision (next_pay w (lq_hash q)) (next_look w (lq_hash q)))) /\
-                   d_mq (w_db w') = d_mq (w_db w) /\ l_calls (w_ln w') = l_calls (w_ln w) ++ [the_pay_call cfg q]
-               end
-         | Err e =>
-             w_db w' = w_db w /\ w_ln w' = w_ln w \/
-             e = ELn /\
-             (exists q : lquote,
-                find_lq id (d_lq (w_db w)) = Some q /\
-                melt_validated mem_ks q ins w /\
-                melt_effect id ins w w' 1 0 /\ d_mq (w_db w') = d_mq (w_db w) /\ w_ln w' = w_ln w)
-         end.
-Proof. exact @melt_tokens_spec. Qed.
-Print Assumptions C06_melt_tokens_spec.
 
